@@ -34,6 +34,8 @@ def norm_dtype(d):
     name = getattr(d, "dtype_name", None)
     if name:
         return name
+    if type(d).__name__ == "LibRef":
+        return norm_dtype(d.name.rsplit(".", 1)[-1])
     name = getattr(d, "__name__", None)
     if name:
         return norm_dtype(name)
